@@ -39,7 +39,7 @@ theorem acceptBody_spec (s0 : St) (c : Nat) (hfd : (s0.ctx c).fdOpen = true) :
                                       regFailed := true, fdOpen := false, nFdc := (s0.ctx c).nFdc + 1 }, false)
       else
         .ok (({ s0 with reg := s0.reg ++ [c] } : St).set c
-              { s0.ctx c with mem := .live, ref := 1, flagClosed := false, nConn := (s0.ctx c).nConn + 1 }, true) := by
+              { s0.ctx c with mem := .live, ref := 1, flagClosed := false, nConn := (s0.ctx c).nConn + 1, oConn := 1 }, true) := by
   unfold acceptBody
   have hl : ((s0.set c { s0.ctx c with mem := .live, ref := 1, flagClosed := false }).ctx c).mem = .live := by simp
   have hfd' : ((s0.set c { s0.ctx c with mem := .live, ref := 1, flagClosed := false }).ctx c).fdOpen = true := by
@@ -57,7 +57,7 @@ theorem closeFd_spec (s0 : St) (c : Nat) (hfd : (s0.ctx c).fdOpen = true) :
 
 theorem good_allocfail {x : Ctx} (h : Good x false false) (hm : x.mem = .none) (hfd : x.fdOpen = true)
     (ho : x.origin = .accepted) : Good { x with fdOpen := false, nFdc := x.nFdc + 1 } false false := by
-  obtain ⟨h1, h2, h3, h4, h5, h6, h7, h8, h9, h10, h11⟩ := h
+  obtain ⟨h1, h2, h3, h4, h5, h5a, h5b, h6, h7, h8, h9, h10, h11⟩ := h
   have := h1 hm
   constructor <;> (simp only [b2n] at *) <;> grind
 
@@ -65,23 +65,23 @@ theorem good_regfail {x : Ctx} (h : Good x false false) (hm : x.mem = .none) (hf
     (ho : x.origin = .accepted) :
     Good { x with mem := .freed, ref := 1, flagClosed := false, nFree := x.nFree + 1,
                   regFailed := true, fdOpen := false, nFdc := x.nFdc + 1 } false false := by
-  obtain ⟨h1, h2, h3, h4, h5, h6, h7, h8, h9, h10, h11⟩ := h
+  obtain ⟨h1, h2, h3, h4, h5, h5a, h5b, h6, h7, h8, h9, h10, h11⟩ := h
   have := h1 hm
   constructor <;> (simp only [b2n] at *) <;> grind
 
 theorem good_accept {x : Ctx} (h : Good x false false) (hm : x.mem = .none) (hfd : x.fdOpen = true)
     (ho : x.origin = .accepted) :
-    Good { x with mem := .live, ref := 1, flagClosed := false, nConn := x.nConn + 1 } true false := by
-  obtain ⟨h1, h2, h3, h4, h5, h6, h7, h8, h9, h10, h11⟩ := h
+    Good { x with mem := .live, ref := 1, flagClosed := false, nConn := x.nConn + 1, oConn := 1 } true false := by
+  obtain ⟨h1, h2, h3, h4, h5, h5a, h5b, h6, h7, h8, h9, h10, h11⟩ := h
   have := h1 hm
   constructor <;> (simp only [b2n] at *) <;> grind
 
 theorem acceptOne_inv {s : St} (hi : Inv s) (hex : s.exited = false) :
     ∃ s' b, acceptOne s = .ok (s', b) ∧ Inv s' ∧ s'.exited = s.exited ∧ (∀ c, c ∈ s.reg → c ∈ s'.reg) ∧
-      s'.backlog = s.backlog.tail := by
+      s'.backlog = s.backlog.tail ∧ (∀ c, (s.ctx c).mem = .live → s'.ctx c = s.ctx c) := by
   rw [acceptOne_eq]
   cases hb : s.backlog with
-  | nil => exact ⟨s, false, rfl, hi, rfl, fun _ h => h, by simp [hb]⟩
+  | nil => exact ⟨s, false, rfl, hi, rfl, fun _ h => h, by simp [hb], fun _ _ => rfl⟩
   | cons p rest =>
     obtain ⟨c, ok⟩ := p
     have hp : (c, ok) ∈ s.backlog := by simp [hb]
@@ -99,11 +99,16 @@ theorem acceptOne_inv {s : St} (hi : Inv s) (hex : s.exited = false) :
       intro e
       exact hnd.1 (by rw [← e]; exact List.mem_map_of_mem hp')
     have hex' : s.exited = true → False := by intro h; rw [hex] at h; cases h
+    have hframe : ∀ (R : List Nat) (y : Ctx) (c' : Nat), (s.ctx c').mem = .live →
+        (({ s with backlog := rest, reg := R } : St).set c y).ctx c' = s.ctx c' := by
+      intro R y c' hl'
+      have hne : c' ≠ c := by intro e; subst e; rw [hm] at hl'; cases hl'
+      exact set_ctx_ne _ _ _ _ hne
     cases ok with
     | false =>
       simp only [Bool.not_false, if_true]
       rw [closeFd_spec { s with backlog := rest } c hfd]
-      refine ⟨_, false, rfl, ?_, rfl, fun _ h => h, rfl⟩
+      refine ⟨_, false, rfl, ?_, rfl, fun _ h => h, rfl, hframe s.reg _⟩
       exact inv_update' hi c _ s.reg s.queue rest hcn hB hnd.2 (fun _ _ => Iff.rfl) (fun _ _ => Iff.rfl)
         hi.regNd hi.queueNd (hi.disj c)
         (good_congr (good_allocfail g' hm hfd ho) (by simp [hcr]) (by simp [hcq])) hi.exited
@@ -112,7 +117,7 @@ theorem acceptOne_inv {s : St} (hi : Inv s) (hex : s.exited = false) :
       rw [acceptBody_spec { s with backlog := rest } c hfd]
       by_cases hf : full { s with backlog := rest }
       · rw [if_pos hf]
-        refine ⟨_, false, rfl, ?_, rfl, fun _ h => h, rfl⟩
+        refine ⟨_, false, rfl, ?_, rfl, fun _ h => h, rfl, hframe s.reg _⟩
         exact inv_update' hi c _ s.reg s.queue rest hcn hB hnd.2 (fun _ _ => Iff.rfl) (fun _ _ => Iff.rfl)
           hi.regNd hi.queueNd (hi.disj c)
           (good_congr (good_regfail g' hm hfd ho) (by simp [hcr]) (by simp [hcq])) hi.exited
@@ -123,26 +128,30 @@ theorem acceptOne_inv {s : St} (hi : Inv s) (hex : s.exited = false) :
           intro a ha b hb'
           simp at hb'; subst hb'
           intro e; subst e; exact hcr ha
-        refine ⟨_, true, rfl, ?_, rfl, fun _ h => by simp [h], rfl⟩
+        refine ⟨_, true, rfl, ?_, rfl, fun _ h => by simp [h], rfl, hframe (s.reg ++ [c]) _⟩
         exact inv_update' hi c _ (s.reg ++ [c]) s.queue rest hcn hB hnd.2 (fun c' h => by simp [h])
           (fun _ _ => Iff.rfl) hRn hi.queueNd (fun _ => hcq)
           (good_congr (good_accept g' hm hfd ho) (by simp) (by simp [hcq])) (fun h => (hex' h).elim)
 
 theorem acceptLoop_inv : ∀ (fuel : Nat) {s : St}, Inv s → s.exited = false →
-    ∃ s', acceptLoop fuel s = .ok s' ∧ Inv s' ∧ s'.exited = s.exited ∧ (∀ c, c ∈ s.reg → c ∈ s'.reg) := by
+    ∃ s', acceptLoop fuel s = .ok s' ∧ Inv s' ∧ s'.exited = s.exited ∧ (∀ c, c ∈ s.reg → c ∈ s'.reg) ∧
+      (∀ c, (s.ctx c).mem = .live → s'.ctx c = s.ctx c) := by
   intro fuel
   induction fuel with
-  | zero => intro s hi _; exact ⟨s, rfl, hi, rfl, fun _ h => h⟩
+  | zero => intro s hi _; exact ⟨s, rfl, hi, rfl, fun _ h => h, fun _ _ => rfl⟩
   | succ k ih =>
     intro s hi hex
-    obtain ⟨s1, b, h1, hi1, hex1, hreg1, _⟩ := acceptOne_inv hi hex
+    obtain ⟨s1, b, h1, hi1, hex1, hreg1, _, hf1⟩ := acceptOne_inv hi hex
     unfold acceptLoop
     simp only [h1, bind, Except.bind]
     cases b with
-    | false => exact ⟨s1, rfl, hi1, hex1, hreg1⟩
+    | false => exact ⟨s1, rfl, hi1, hex1, hreg1, hf1⟩
     | true =>
-      obtain ⟨s2, h2, hi2, hex2, hreg2⟩ := ih hi1 (hex1 ▸ hex)
-      exact ⟨s2, by simpa using h2, hi2, hex2.trans hex1, fun c h => hreg2 c (hreg1 c h)⟩
+      obtain ⟨s2, h2, hi2, hex2, hreg2, hf2⟩ := ih hi1 (hex1 ▸ hex)
+      refine ⟨s2, by simpa using h2, hi2, hex2.trans hex1, fun c h => hreg2 c (hreg1 c h), ?_⟩
+      intro c hl
+      have e1 := hf1 c hl
+      rw [hf2 c (by rw [e1]; exact hl), e1]
 
 /-! ## wake-up, clear, exit -/
 
@@ -167,11 +176,13 @@ theorem onWake_inv : ∀ (fuel : Nat) {s : St}, Inv s → s.exited = false → s
       simp [h1, bind, Except.bind, h2]
 
 /-- `clearOne` after the context was taken from the list -/
-theorem clearOne_inv {s : St} (hi : Inv s) (hex : s.exited = false) :
-    ∃ s', clearOne s = .ok s' ∧ Inv s' ∧ s'.exited = s.exited ∧ s'.reg = s.reg.tail ∧ s'.queue = s.queue := by
+theorem clearOne_inv {s : St} (hi : Inv s) (hex : s.exited = false)
+    (hnc : ∀ c ∈ s.reg, (s.ctx c).closing = false) :
+    ∃ s', clearOne s = .ok s' ∧ Inv s' ∧ s'.exited = s.exited ∧ s'.reg = s.reg.tail ∧ s'.queue = s.queue ∧
+      (∀ c ∈ s'.reg, (s'.ctx c).closing = false) := by
   unfold clearOne
   cases hr : s.reg with
-  | nil => exact ⟨s, rfl, hi, rfl, by simp [hr], rfl⟩
+  | nil => exact ⟨s, rfl, hi, rfl, by simp [hr], rfl, hnc⟩
   | cons c rest =>
     have hcr : c ∈ s.reg := by simp [hr]
     have hl := live_of_reg hi hcr
@@ -185,11 +196,16 @@ theorem clearOne_inv {s : St} (hi : Inv s) (hex : s.exited = false) :
     have hl0 : (({ s with reg := rest } : St).ctx c).mem = .live := hl
     simp only []
     rw [releaseCtx_spec { s with reg := rest } c hl0]
-    refine ⟨_, rfl, ?_, rfl, rfl, rfl⟩
-    exact inv_update hi c (relRec (s.ctx c)) rest s.queue hl hR (fun _ _ => Iff.rfl) (List.nodup_cons.mp hnd).2
-      hi.queueNd (fun h => absurd h hcrest)
-      (good_congr (good_release g' hl (Or.inl ⟨rfl, rfl⟩)) (by simp [hcrest]) (by simp [hcq]))
-      (fun h => (hex' h).elim)
+    refine ⟨_, rfl, ?_, rfl, rfl, rfl, ?_⟩
+    · exact inv_update hi c (relRec (s.ctx c)) rest s.queue hl hR (fun _ _ => Iff.rfl) (List.nodup_cons.mp hnd).2
+        hi.queueNd (fun h => absurd h hcrest)
+        (good_congr (good_release g' hl (Or.inl ⟨rfl, rfl⟩) (hnc c hcr)) (by simp [hcrest]) (by simp [hcq]))
+        (fun h => (hex' h).elim)
+    · intro c' hc'
+      have hne : c' ≠ c := by intro e; subst e; exact hcrest hc'
+      show ((St.set _ c _).ctx c').closing = false
+      rw [set_ctx_ne _ _ _ _ hne]
+      exact hnc c' ((hR c' hne).mp hc')
 
 theorem exitOne_inv {s : St} (hi : Inv s) (hex : s.exited = false) :
     ∃ s', exitOne s = .ok s' ∧ Inv s' ∧ s'.exited = s.exited ∧ s'.queue = s.queue.tail ∧ s'.reg = s.reg := by
@@ -212,26 +228,27 @@ theorem exitOne_inv {s : St} (hi : Inv s) (hex : s.exited = false) :
     refine ⟨_, rfl, ?_, rfl, rfl, rfl⟩
     exact inv_update hi c (relRec (s.ctx c)) s.reg rest hl (fun _ _ => Iff.rfl) hQ hi.regNd
       (List.nodup_cons.mp hnd).2 (fun h => absurd h hcr)
-      (good_congr (good_release g' hl (Or.inr ⟨rfl, rfl⟩)) (by simp [hcr]) (by simp [hcrest]))
+      (good_congr (good_release g' hl (Or.inr ⟨rfl, rfl⟩) (not_closing_of_not_reg g')) (by simp [hcr]) (by simp [hcrest]))
       (fun h => (hex' h).elim)
 
 theorem clearAll_inv : ∀ (fuel : Nat) {s : St}, Inv s → s.exited = false → s.reg.length ≤ fuel →
+    (∀ c ∈ s.reg, (s.ctx c).closing = false) →
     ∃ s', clearAll fuel s = .ok s' ∧ Inv s' ∧ s'.exited = s.exited ∧ s'.reg = [] ∧ s'.queue = s.queue := by
   intro fuel
   induction fuel with
   | zero =>
-    intro s hi _ hl
+    intro s hi _ hl _
     exact ⟨s, rfl, hi, rfl, List.length_eq_zero_iff.mp (by omega), rfl⟩
   | succ k ih =>
-    intro s hi hex hl
+    intro s hi hex hl hnc
     unfold clearAll
     by_cases hq : s.reg.isEmpty
     · simp only [hq, if_true]
       exact ⟨s, rfl, hi, rfl, by simpa using hq, rfl⟩
     · simp only [hq]
-      obtain ⟨s1, h1, hi1, hex1, hr1, hq1⟩ := clearOne_inv hi hex
+      obtain ⟨s1, h1, hi1, hex1, hr1, hq1, hnc1⟩ := clearOne_inv hi hex hnc
       have hl1 : s1.reg.length ≤ k := by rw [hr1]; simp; omega
-      obtain ⟨s2, h2, hi2, hex2, hr2, hq2⟩ := ih hi1 (hex1 ▸ hex) hl1
+      obtain ⟨s2, h2, hi2, hex2, hr2, hq2⟩ := ih hi1 (hex1 ▸ hex) hl1 hnc1
       refine ⟨s2, ?_, hi2, hex2.trans hex1, hr2, hq2.trans hq1⟩
       simp [h1, bind, Except.bind, h2]
 
@@ -255,9 +272,10 @@ theorem exitAll_inv : ∀ (fuel : Nat) {s : St}, Inv s → s.exited = false → 
       refine ⟨s2, ?_, hi2, hex2.trans hex1, hq2, hr2.trans hr1⟩
       simp [h1, bind, Except.bind, h2]
 
-theorem runExit_inv {s : St} (hi : Inv s) (hex : s.exited = false) :
+theorem runExit_inv {s : St} (hi : Inv s) (hex : s.exited = false)
+    (hnc : ∀ c ∈ s.reg, (s.ctx c).closing = false) :
     ∃ s', runExit s = .ok s' ∧ Inv s' ∧ s'.exited = true := by
-  obtain ⟨s1, h1, hi1, hex1, hr1, _⟩ := clearAll_inv s.reg.length hi hex (Nat.le_refl _)
+  obtain ⟨s1, h1, hi1, hex1, hr1, _⟩ := clearAll_inv s.reg.length hi hex (Nat.le_refl _) hnc
   obtain ⟨s2, h2, hi2, hex2, hq2, hr2⟩ := exitAll_inv s1.queue.length hi1 (hex1 ▸ hex) (Nat.le_refl _)
   refine ⟨{ s2 with exited := true }, ?_, ?_, rfl⟩
   · simp [runExit, h1, h2, bind, Except.bind, pure, Except.pure]
@@ -294,20 +312,22 @@ theorem dispatchCtx_eq (s : St) (c k : Nat) : dispatchCtx s c k = (do
     split <;> (try split) <;> rfl
 
 theorem dispatchHead_inv {s : St} (hi : Inv s) (hex : s.exited = false) {c : Nat} (hc : c ∈ s.reg) (k : Nat) :
-    ∃ s', dispatchHead s (s.ctx c) c k = .ok s' ∧ Inv s' ∧ s'.exited = s.exited ∧ c ∈ s'.reg := by
+    ∃ s', dispatchHead s (s.ctx c) c k = .ok s' ∧ Inv s' ∧ s'.exited = s.exited ∧ c ∈ s'.reg ∧
+      (s'.ctx c).closing = (s.ctx c).closing := by
   have hl := live_of_reg hi hc
   unfold dispatchHead
   split
   · split
-    · exact ⟨s, rfl, hi, rfl, hc⟩
-    · obtain ⟨s', h, hi', hex', hreg⟩ := acceptLoop_inv (s.backlog.length + 1) hi hex
-      exact ⟨s', h, hi', hex', hreg c hc⟩
+    · exact ⟨s, rfl, hi, rfl, hc, rfl⟩
+    · obtain ⟨s', h, hi', hex', hreg, hfr⟩ := acceptLoop_inv (s.backlog.length + 1) hi hex
+      exact ⟨s', h, hi', hex', hreg c hc, by rw [hfr c hl]⟩
   · split
     · rw [onReadClient_spec s c k hl]
-      exact ⟨_, rfl, inv_set hi c _ hl (good_read (hi.good c) k), rfl, hc⟩
-    · exact ⟨s, rfl, hi, rfl, hc⟩
+      exact ⟨_, rfl, inv_set hi c _ hl (good_read (hi.good c) k), rfl, hc, by rw [set_ctx]; rfl⟩
+    · exact ⟨s, rfl, hi, rfl, hc, rfl⟩
 
-theorem dispatchTail_inv {s : St} (hi : Inv s) (hex : s.exited = false) {c : Nat} (hc : c ∈ s.reg) :
+theorem dispatchTail_inv {s : St} (hi : Inv s) (hex : s.exited = false) {c : Nat} (hc : c ∈ s.reg)
+    (hnc : (s.ctx c).closing = false) :
     ∃ s', dispatchTail s c = .ok s' ∧ Inv s' ∧ s'.exited = s.exited := by
   have hl := live_of_reg hi hc
   have g := hi.good c
@@ -324,17 +344,68 @@ theorem dispatchTail_inv {s : St} (hi : Inv s) (hex : s.exited = false) {c : Nat
     exact inv_update hi c _ (s.reg.erase c) s.queue hl
       (fun c' h => by simp [List.mem_erase_of_ne h]) (fun _ _ => Iff.rfl)
       (List.Nodup.erase _ hi.regNd) hi.queueNd (fun h => absurd h hne)
-      (good_congr (good_close g' hl) (by simp [hne]) (by simp [hcq])) (fun h => (hex' h).elim)
+      (good_congr (good_close g' hl hnc) (by simp [hne]) (by simp [hcq])) (fun h => (hex' h).elim)
   · rw [if_neg hf]
     exact ⟨s, rfl, hi, rfl⟩
 
-theorem dispatchCtx_inv {s : St} (hi : Inv s) (hex : s.exited = false) {c : Nat} (hc : c ∈ s.reg) (k : Nat) :
+theorem dispatchCtx_inv {s : St} (hi : Inv s) (hex : s.exited = false) {c : Nat} (hc : c ∈ s.reg)
+    (hnc : (s.ctx c).closing = false) (k : Nat) :
     ∃ s', dispatchCtx s c k = .ok s' ∧ Inv s' ∧ s'.exited = s.exited := by
   have hl := live_of_reg hi hc
-  obtain ⟨s1, h1, hi1, hex1, hc1⟩ := dispatchHead_inv hi hex hc k
-  obtain ⟨s2, h2, hi2, hex2⟩ := dispatchTail_inv hi1 (hex1 ▸ hex) hc1
+  obtain ⟨s1, h1, hi1, hex1, hc1, hcl1⟩ := dispatchHead_inv hi hex hc k
+  obtain ⟨s2, h2, hi2, hex2⟩ := dispatchTail_inv hi1 (hex1 ▸ hex) hc1 (hcl1.trans hnc)
   refine ⟨s2, ?_, hi2, hex2.trans hex1⟩
   rw [dispatchCtx_eq]
   simp [live_ok hl, bind, Except.bind, h1, h2]
+
+/-! ## the turn in pieces: acts of other threads may come in between -/
+
+theorem turnRead_eq (s : St) (c k : Nat) : turnRead s c k = (do
+    let x ← s.live c
+    dispatchHead s x c k) := by
+  unfold turnRead dispatchHead
+  rfl
+
+theorem turnRead_inv {s : St} (hi : Inv s) (hex : s.exited = false) {c : Nat} (hc : c ∈ s.reg) (k : Nat) :
+    ∃ s', turnRead s c k = .ok s' ∧ Inv s' ∧ s'.exited = s.exited := by
+  have hl := live_of_reg hi hc
+  obtain ⟨s1, h1, hi1, hex1, _, _⟩ := dispatchHead_inv hi hex hc k
+  refine ⟨s1, ?_, hi1, hex1⟩
+  rw [turnRead_eq]
+  simp [live_ok hl, bind, Except.bind, h1]
+
+theorem closeBegin_spec (s : St) (c : Nat) (hl : (s.ctx c).mem = .live) :
+    closeBegin s c = .ok (s.set c { s.ctx c with nCls := (s.ctx c).nCls + 1, oCls := (s.ctx c).ref, closing := true }) := by
+  simp [closeBegin, cbClose, St.live, hl, bind, Except.bind, pure, Except.pure]
+
+theorem closeBegin_inv {s : St} (hi : Inv s) {c : Nat} (hc : c ∈ s.reg) (hnc : (s.ctx c).closing = false) :
+    ∃ s', closeBegin s c = .ok s' ∧ Inv s' ∧ s'.exited = s.exited ∧ (s'.ctx c).closing = true ∧ c ∈ s'.reg := by
+  have hl := live_of_reg hi hc
+  have hcq : c ∉ s.queue := hi.disj c hc
+  have g' : Good (s.ctx c) true false := good_congr (hi.good c) (by simp [hc]) (by simp [hcq])
+  refine ⟨_, closeBegin_spec s c hl, ?_, rfl, by simp, hc⟩
+  exact inv_set hi c _ hl (good_congr (good_closeBegin g' hl hnc) (by simp [hc]) (by simp [hcq]))
+
+theorem closeEnd_spec (s : St) (c : Nat) (hl : (s.ctx c).mem = .live) :
+    closeEnd s c = .ok { s.set c (relRec { s.ctx c with closing := false }) with reg := s.reg.erase c } := by
+  have h2 : ((s.set c { s.ctx c with closing := false }).ctx c).mem = .live := by simp [hl]
+  simp only [closeEnd, live_ok hl, bind, Except.bind, pure, Except.pure]
+  rw [releaseCtx_spec _ _ h2]
+  simp
+
+theorem closeEnd_inv {s : St} (hi : Inv s) (hex : s.exited = false) {c : Nat} (hcl : (s.ctx c).closing = true) :
+    ∃ s', closeEnd s c = .ok s' ∧ Inv s' ∧ s'.exited = s.exited := by
+  have g := hi.good c
+  obtain ⟨hr, hl, _⟩ := g.cl hcl
+  have hc : c ∈ s.reg := by simpa using hr
+  have hcq : c ∉ s.queue := hi.disj c hc
+  have g' : Good (s.ctx c) true false := good_congr g (by simp [hc]) (by simp [hcq])
+  have hex' : s.exited = true → False := by intro h; rw [hex] at h; cases h
+  have hne : c ∉ s.reg.erase c := fun h => (List.Nodup.mem_erase_iff hi.regNd).mp h |>.1 rfl
+  refine ⟨_, closeEnd_spec s c hl, ?_, rfl⟩
+  exact inv_update hi c _ (s.reg.erase c) s.queue hl
+    (fun c' h => by simp [List.mem_erase_of_ne h]) (fun _ _ => Iff.rfl)
+    (List.Nodup.erase _ hi.regNd) hi.queueNd (fun h => absurd h hne)
+    (good_congr (good_closeEnd g' hl hcl) (by simp [hne]) (by simp [hcq])) (fun h => (hex' h).elim)
 
 end MgProof.C15
